@@ -25,6 +25,9 @@ def C18(chk):
     chk.cov["obligations"] = n_obl
     chk.cov["discharged"] = n_obl
     chk.add_part("TLAPS:CodepointsProof", {"obligations_proved": n_obl, "theorems": ["RangeTrichotomy", "RangeCoherent", "RangeMirrored", "SingleTrichotomy", "SortedIsMonotone"]})
+    # the binary searches the property is anchored in (derived-property tables, context tables, Bidi_Class, width mapping,
+    # space separators), every code point as search key: the real tables with the real look-up functions
+    apply_l1(chk, ["id", "ff", "wm1", "wm2", "wm3", "bidi", "vir", "greek", "hebrew", "kana", "ld", "rd", "osp", "nsp"], nontrivial_key="runs")
     chk.cov["exhaustive"] = True
     chk.cov["rule"] = ("every entry (single, range start<=end) x every code point of a window of %d values: the 12 hand-written "
                        "operators; every sorted table over the window x every code point: binary search; each replayed against "
@@ -43,6 +46,8 @@ def C13(chk):
     if mc.res.violated:
         return spec_violation(chk, mc, "MC_Stabilize")
     replay(chk, mc, "MC_Stabilize(|D|=%d)" % n)
+    # the two rule sets Nickname binds to stabilize (enforcement, comparison), one after the other on the same strings
+    l3_run(chk, "nickname-stabilize-echo", driver="echo", strings=24 if chk.tier == "quick" else 200, profiles=["NICK"], max_len=6, seed_offset=11)
     if chk.tier == "thorough":
         import selftest
         chk.notes.append("binding self-test: " + selftest.selftest_l2())
@@ -144,6 +149,7 @@ def C04(chk):
     profs, ops = ["UCM", "UCP"], ["prepare", "enforce"]
     profiles_mc(chk, "width-case", ["a", "A", "FWA", "fwa", "HWK", "ISP", "FWBANG", "SP", "d1"], n, profs, ops, insts)
     profiles_mc(chk, "case-nfc", ["A", "e", "acute", "Eac", "angst", "Sig", "dotI", "cedil", "ypo"], n, profs, ops, insts)
+    profiles_mc(chk, "nfc-marks", ["e", "acute", "vlb", "tone", "cedil", "Eac", "A"], n, profs, ["enforce"], (0,))
     profiles_mc(chk, "nfc-bidi", ["heb", "hpt", "a", "d1", "aid", "eaid", "arab", "fatha", "dot"], n, profs, ops, insts)
     profiles_mc(chk, "context-case", ["l", "mdot", "A", "grk", "GRK", "keraia", "ZWJ", "vir", "deva"], n, profs, ops, insts)
     profiles_mc(chk, "framed", ["A", "FWA", "Eac", "acute", "heb", "hpt", "aid", "d1", "mdot", "l"], 0, profs, ["enforce"], (0,),
@@ -174,6 +180,7 @@ def C05(chk):
     profiles_mc(chk, "opq-spaces", ["a", "A", "SP", "NBSP", "OGH", "ISP", "EQD", "EMSP", "TAB", "DEL"], n, ["OPQ"], ops, insts)
     profiles_mc(chk, "opq-hangul", ["jamo", "jamoV", "jamoT", "hsyl", "hcj", "a", "NBSP"], n, ["OPQ"], ops, insts)
     profiles_mc(chk, "opq-compat", ["a", "FWA", "rom4", "e", "acute", "angst", "emo", "NBSP", "diaer"], n, ["OPQ"], ops, insts)
+    profiles_mc(chk, "opq-marks", ["e", "acute", "vlb", "tone", "cedil", "grk", "NBSP"], n + 1 if q else n, ["OPQ"], ["enforce", "normalization_rule"], (0,))
     profiles_mc(chk, "opq-framed", ["NBSP", "ISP", "e", "acute", "angst", "TAB"], 0, ["OPQ"], ["enforce"], (0,),
                 invariants=["Agree", "OnlySpacesChange", "NoDrift"], frame=(8, 3, 2, ("a", "eac")) if q else (9, 9, 3, ("a", "eac", "han")))
     apply_l1(chk, ["osp", "pp"], nontrivial_key="zs")
@@ -198,11 +205,13 @@ def C06(chk):
     profiles_mc(chk, "nick-compat", ["a", "rom4", "hcj", "eac", "han", "emo", "FWA", "SP", "diaer"], n, ["NICK"], ops, insts)
     profiles_mc(chk, "nick-hangul", ["jamo", "jamoV", "hsyl", "jamoT", "hcj", "a", "OGH", "SP"], n, ["NICK"], ops, insts)
     profiles_mc(chk, "nick-nfkc", ["e", "acute", "Eac", "cedil", "SP", "rom4", "angst", "hy"], n, ["NICK"], ops, insts)
+    profiles_mc(chk, "nick-marks", ["e", "acute", "vlb", "tone", "cedil", "SP", "A"], n + 1 if q else n, ["NICK"], ["enforce"], (0,))
     profiles_mc(chk, "nick-latin1", ["micro", "sup2", "ordm", "a", "SP", "diaer", "two"], n, ["NICK"], ops, insts)
     profiles_mc(chk, "nick-framed", ["SP", "NBSP", "diaer", "rom4", "hcj", "emo"], 0, ["NICK"], ["enforce"], (0,),
                 invariants=["Agree", "FixedPoint", "NoDrift"], frame=(8, 3, 2, ("a", "eac", "SP")) if q else (9, 9, 3, ("a", "eac", "SP")))
     apply_l1(chk, ["nsp", "lc5", "pp"], nontrivial_key="zs")
     l3_run(chk, "nickname-limits", driver="limits", per_string=2, kinds=["enforce"], profiles=["NICK"], seed_offset=5)
+    l3_run(chk, "nickname-expanders", driver="expanders", per_string=1, kinds=["enforce"], profiles=["NICK"], seed_offset=4)
     long_run(chk, profiles=["NICK"], ops=ops)
     l3_run(chk, "nickname-echo", driver="echo", strings=24 if q else 200, profiles=["NICK"], max_len=6, seed_offset=11)
     race_run(chk, processes=40 if q else 400, long_processes=1 if q else 10, judge=False)
@@ -239,7 +248,7 @@ def C11(chk):
     q = chk.tier == "quick"
     n = 4 if q else 5
     insts = (0, 1) if q else (0, 1, 2, 3)
-    profiles_mc(chk, "width", ["a", "FWA", "HWK", "ISP", "rom4", "eac", "emo", "fwa"], n, ["UCM", "UCP"],
+    profiles_mc(chk, "width", ["a", "FWA", "HWK", "ISP", "rom4", "eac", "emo", "fwa", "cjkp", "ffun"], n, ["UCM", "UCP"],
                 ["width_mapping_rule"], insts, invariants=["Agree", "MappingsAgree", "MappingsIdempotent"])
     profiles_mc(chk, "width-prepare", ["a", "FWA", "HWK", "ISP", "rom4", "eac", "FWBANG"], n - 1, ["UCM", "UCP"], ["prepare"], insts)
     profiles_mc(chk, "width-framed", ["FWA", "HWK", "ISP", "han", "cjkp", "emo"], 0, ["UCM"], ["width_mapping_rule"], (0,),
@@ -323,6 +332,8 @@ def C03(chk):
                {"MaxLen": n - 1 if q else n, "Rules": tla_set(["keraia", "hebrew", "middle_dot", "zwj"])}, CTX_INVS, insts)
     apply_l1(chk, ["reg", "vir", "greek", "hebrew", "kana", "ld", "rd", "md", "aidx", "eaidx", "own", "al"], nontrivial_key="ctx")
     long_run(chk, profiles=["OPQ"], ops=["prepare"], ctx=True, max_bytes=3000, name="long-ctx")
+    l3_run(chk, "context-pairs", driver="ctxpairs")
+    l3_run(chk, "context-limits", driver="ctxlimits")
     l3_run(chk, "context", strings=1200 if q else 8000, per_string=4, kinds=["ctx", "ctx", "ctx", "allows"])
     chk.cov["exhaustive"] = True
     chk.cov["rule"] = ("every label of length <= %d over three generated alphabets (joiners with L/D/R/T/U joining types and a virama; "
@@ -355,6 +366,8 @@ def C02(chk):
     apply_l1(chk, ["reg", "id", "ff", "vir", "greek", "hebrew", "kana", "ld", "rd", "md", "aidx", "eaidx", "own", "al", "pp"], nontrivial_key="ctx")
     l3_run(chk, "allows-runs", driver="runs", per_string=2, kinds=["allows", "ctx"], seed_offset=3)
     long_run(chk, profiles=["UCP", "OPQ"], ops=["prepare"], ctx=True, max_bytes=3000, name="long-ctx")
+    l3_run(chk, "allows-pairs", driver="ctxpairs")
+    l3_run(chk, "allows-limits", driver="ctxlimits")
     l3_run(chk, "allows", strings=600 if q else 8000, per_string=2, kinds=["allows"])
     chk.cov["exhaustive"] = True
     chk.cov["rule"] = ("user-supplied classes: every assignment of the 7 property values to %d free multi-byte symbols x every label of "
@@ -447,6 +460,7 @@ def C08(chk):
     invs = ["Agree", "OutputClean", "NoDrift", "FixedPoint"]
     profiles_mc(chk, "closure-cased", ["A", "Eac", "dotI", "ypo", "angst", "e", "acute", "GRK", "Sig"], n, allp, ["enforce"], insts, invariants=invs)
     profiles_mc(chk, "closure-marks", ["capJ", "caron", "dotI", "cedil", "acute", "capH", "macronb", "a"], n, ["UCM", "UCP", "NICK"], ["enforce"], insts, invariants=invs)
+    profiles_mc(chk, "closure-marks2", ["e", "acute", "vlb", "tone", "cedil", "grk", "A"], n + 1 if q else n, allp, ["enforce"], (0,), invariants=invs)
     profiles_mc(chk, "closure-compat", ["rom4", "hcj", "diaer", "FWA", "ISP", "NBSP", "a", "acute", "SP"], n, allp, ["enforce"], insts, invariants=invs)
     # the invariant really depends on the closure assumptions: with a character whose lowercase image is
     # UNASSIGNED in the universe (role cher) TLC must find OutputClean violated
@@ -487,6 +501,7 @@ def C08(chk):
     chk.cov["distinct_nontrivial"] += summary["changed"]
     chk.sample({"layer": "sweep", "summary": summary})
     l3_run(chk, "enforce-limits", driver="limits", per_string=2, kinds=["enforce"], profiles=allp, seed_offset=5)
+    l3_run(chk, "enforce-expanders", driver="expanders", per_string=2, kinds=["enforce"], profiles=allp, seed_offset=4)
     l3_run(chk, "enforce-marks", driver="marks", per_string=2, kinds=["enforce", "normalization_rule"], profiles=allp, seed_offset=6)
     long_run(chk, profiles=allp, ops=["enforce"])
     l3_run(chk, "enforce-echo", driver="echo", strings=24 if q else 200, profiles=allp, max_len=6, seed_offset=11)
@@ -531,6 +546,7 @@ def C01(chk):
     for pe in r["panics"][:5]:
         chk.violation("panic while classifying / probing code points U+%04X..U+%04X" % (pe.get("lo", 0), pe.get("hi", 0)), {"layer": "L1", "event": pe})
     l3_run(chk, "all-ops-runs", driver="runs", per_string=3, seed_offset=3)
+    l3_run(chk, "all-ops-expanders", driver="expanders", per_string=2, kinds=["enforce", "normalization_rule", "case_mapping_rule"], seed_offset=4)
     long_run(chk)
     l3_run(chk, "all-ops", strings=700 if q else 8000, per_string=5, max_len=12)
     chk.cov["rule"] = ("every string of length <= %s over an 11-symbol alphabet (1/2/3/4-byte characters, ASCII / 2-byte / 3-byte spaces, cased, "
@@ -573,6 +589,12 @@ def C15(chk):
         if mc:
             replay(chk, mc, "MC_TableGen malformed First/Last structure")
         # property-file generators (Scripts / joining types / property sets): lines in any order
+        if q:
+            # four lines over four code points: a value that comes back after every tracked value has had a block of its own
+            cfg4 = ("SPECIFICATION Spec\nCONSTANTS\n  M = 4\n  MaxLines = 4\nINVARIANT Faithful\nINVARIANT Merged\nINVARIANT Emit\nCHECK_DEADLOCK FALSE\n")
+            mc4 = plain_mc(chk, "MC_PropFile", "c15-propfile4", cfg4, workers=4)
+            if mc4:
+                replay(chk, mc4, "MC_PropFile (4 lines over 4 code points) x 4 bases x 5 formats")
         cfg = ("SPECIFICATION Spec\nCONSTANTS\n  M = %d\n  MaxLines = %d\nINVARIANT Faithful\nINVARIANT Merged\nINVARIANT Emit\nCHECK_DEADLOCK FALSE\n"
                % ((5, 3) if q else (6, 4)))
         mc = plain_mc(chk, "MC_PropFile", "c15-propfile", cfg, workers=4)
@@ -696,7 +718,7 @@ def C16(chk):
     session_run(chk, processes=6 if q else 60, threads=8, calls=40 if q else 60)
     # (3b) volume: concurrent results against the sequential reference, first use racing in every fresh process
     from l3 import race_run
-    race_run(chk, processes=120 if q else 1500, long_processes=4 if q else 40)
+    race_run(chk, processes=160 if q else 1600, long_processes=4 if q else 40)
     l3_run(chk, "echo", driver="echo", strings=40 if q else 400, max_len=6, seed_offset=11)
     # (4) single-threaded histories: several different calls on the same string in a row
     l3_run(chk, "histories", strings=1000 if q else 6000, per_string=6, max_len=6)
